@@ -33,6 +33,11 @@ import (
 // schedules on the REAL paymentsdb.KVStore (bbolt, behind verifkit.DB) and
 // paymentsdb.SQLStore (SQLite) and records what the code answered.  It contains
 // no judgement: PaymentStoreTrace.tla / PaymentStoreConc.tla are the judges.
+// Every Register event carries the route of the attempt in model terms; the
+// real route.Route is built from it field by field (c16BuildRoute), and after
+// every call the route of every attempt of every payment is read back from the
+// store and copied into the same terms (c16ProjRoute), as is the route of every
+// attempt of the payment a call returns.
 
 // c16Unit is the number of millisatoshi of one model amount unit.
 const c16Unit = 1000
